@@ -139,7 +139,9 @@ class AuxReports(SubCheck):
         self.core_model = core_model
         from vf import build
 
-        build.load_real(["core"])
+        from vf.models import vcfdoc
+
+        vcfdoc.ensure_real()  # core, align, _variants rebuilt from the working tree - the same set the `run` sub-check of this module loads in the same worker
         import whatshap.cli.phase as real_phase
         import whatshap.core as real_core
         import whatshap.vcf as real_vcf
